@@ -49,6 +49,8 @@ FilterLx == <<
    T1(EFn("match", <<RelA, Lit(JStr(<<91>>))>>)), LTest(TRUE, EFn("search", <<RelA, Lit(JStr(<<42, 97>>))>>)), T1(EFn("match", <<RelA, Lit(JStr(<<40, 97>>))>>)),   \* '['  '*a'  '(a': not regular expressions - still valid queries
    LOr(<<T1(EFn("search", <<RelA, Lit(JStr(<<97, 123, 50, 44, 49, 125>>))>>)), T1(RelB)>>),                                                                   \* search(@.a, 'a{2,1}') || @.b
    Cmp("==", RelA, Lit(JStr(nDotSp))), Cmp("!=", RelA, Lit(JStr(nDots))), T1(EFn("match", <<RelA, Lit(JStr(<<46, 42, 32, 120>>))>>)),                            \* 'a. b'  '.. '  match(@.a, '.* x')
+   Cmp("==", EFn("length", <<ERel(<<I1(-1)>>)>>), Lit(JInt(1))), T1(EFn("match", <<ERel(<<N1(cA), I1(-1)>>), Lit(JStr(cA))>>)), T1(EFn("search", <<RelA, EAbs(<<I1(-1)>>)>>)),     \* negative indexes are singular
+   Cmp("<", RelA, Lit(F(1, 16))), Cmp(">", RelA, Lit(F(-25, 29))), Cmp("==", RelA, Lit(F(90071992, 8))),                                                                  \* 1e16  -25e29  90071992e8
    LAnd(<<T1(RelA), T1(RelB)>>), LOr(<<T1(RelA), T1(RelB)>>), LOr(<<T1(RelA), LAnd(<<T1(RelB), Cmp("==", RelA, Lit(JInt(1)))>>)>>),
    LAnd(<<LParen(FALSE, LOr(<<T1(RelA), T1(RelB)>>)), LTest(TRUE, RelA)>>), LParen(TRUE, LAnd(<<T1(RelA), T1(RelB)>>)),
    LOr(<<LParen(TRUE, T1(RelA)), LParen(FALSE, Cmp("==", RelA, RelB)), T1(RelB)>>), LAnd(<<T1(RelA), T1(RelB), LTest(TRUE, AbsA)>>),
@@ -61,7 +63,8 @@ FilterSegs == [i \in 1..Len(FilterLx) |-> F1(FilterLx[i])]
 EscFilterSegs == [i \in 1..Len(EscLx) |-> F1(EscLx[i])]
 
 \* ill-typed / invalid abstract queries (C07): rendered by the same machine, judged by the recogniser
-BadLx == << T1(EFn("length", <<ERel(<<>>)>>)),                                      \* $[?length(@)]     value in test position
+BadLx == << LTest(TRUE, EFn("count", <<RelA>>)), LTest(TRUE, EFn("length", <<ERel(<<>>)>>)), LOr(<<T1(RelB), LTest(TRUE, EFn("value", <<ERel(<<Desc(<<SName(cA)>>)>>)>>))>>),    \* !count(@.a)   !length(@)   @.b || !value(@..a)
+            T1(EFn("length", <<ERel(<<>>)>>)),                                      \* $[?length(@)]     value in test position
             T1(EFn("count", <<ERel(<<Child(<<SWild>>)>>)>>)),                        \* $[?count(@.*)]
             T1(EFn("value", <<RelA>>)),                                             \* $[?value(@.a)]
             Cmp("==", EFn("length", <<ERel(<<Child(<<SWild>>)>>)>>), Lit(JInt(1))),  \* length(@.*) == 1  non-singular for ValueType
@@ -96,7 +99,8 @@ Core2 == <<N1(cA), Child(<<SWild>>), I1(0), Desc(<<SName(cB)>>), Child(<<SName(c
 
 \* names outside ASCII that both notations can spell: the reported paths of all spellings are compared with each other, too
 nLS == <<97, 8232, 98>>   nPS == <<8233>>   nAmp == <<97, 38, 98>>   nZW == <<97, 8203>>   nBom == <<65279, 97>>      \* line / paragraph separator, &, zero-width space, BOM
-OddNameSegs == <<N1(nC1b), N1(nC1), N1(nBmp), Desc(<<SName(nC1b)>>), Desc(<<SName(nC1)>>), N1(nLS), N1(nPS), Desc(<<SName(nLS)>>), N1(nAmp), N1(nZW), N1(nBom),
+\* non-ASCII characters that are "numeric" for Unicode but are ordinary name characters for RFC 9535 (only ASCII digits cannot start a shorthand name)
+OddNameSegs == <<N1(<<1635>>), N1(<<178, 120>>), N1(<<189>>), N1(<<8547>>), N1(<<9312, 97>>), N1(<<65297, 65298>>), Desc(<<SName(<<1635>>)>>), F1(LTest(FALSE, ERel(<<N1(<<1635>>)>>))), N1(nC1b), N1(nC1), N1(nBmp), Desc(<<SName(nC1b)>>), Desc(<<SName(nC1)>>), N1(nLS), N1(nPS), Desc(<<SName(nLS)>>), N1(nAmp), N1(nZW), N1(nBom),
                  F1(LTest(FALSE, ERel(<<N1(nLS)>>))), F1(LCmp("==", RelA, ELit(JStr(nLS)))), F1(LCmp("!=", RelA, ELit(JStr(nAmp))))>>
 AstsC13 == << <<>> >> \o One(PlainSegs) \o One(FilterSegs) \o Two(Core2, Core2) \o One(OddNameSegs) \o << <<N1(nC1), N1(nC1b)>> >>
            \o << <<N1(cA), Desc(<<SWild>>), F1(LOr(<<T1(RelA), Cmp("<", RelB, Lit(JInt(100)))>>)), I1(0)>> >>
